@@ -106,8 +106,12 @@ class Var:
     at that depth (l1 = outermost).  src: defining statements (may be several lines).  after: statements run after
     the Select call in the same scope (rebind / delete / mutate)."""
 
-    def __init__(self, name, scope, src, after=None, helper=None, byname=False, lam_helper=False, mid=None):
+    def __init__(self, name, scope, src, after=None, helper=None, byname=False, lam_helper=False, mid=None,
+                 stays=False, outside=False):
         self.name, self.scope, self.src = name, scope, src
+        self.stays = stays              # a callable with a single-return source that the code must NOT inline: a bound
+        #                                 method (F34), a function with __wrapped__ (F35), a body with `:=` (F36)
+        self.outside = outside          # its snapshot cannot be built from the case description: oracle only
         self.mid = mid                  # statement run between the first and the second call of a two-call program
         self.after = after if after is not None else "%s = 'REBOUND'" % name
         self.helper = helper            # (params, body_src) of a single-return def: inlinable by construction
@@ -138,14 +142,16 @@ class Case:
         return {"lambda": self.lam, "depth": self.depth, "ns_attr": self.ns_attr, "prelude": self.prelude,
                 "passed": self.passed, "twice": self.twice,
                 "vars": [{"name": v.name, "scope": v.scope, "src": v.src, "after": v.after, "helper": v.helper,
-                          "byname": v.byname, "lam_helper": v.lam_helper, "mid": v.mid} for v in self.vars],
+                          "byname": v.byname, "lam_helper": v.lam_helper, "mid": v.mid, "stays": v.stays,
+                          "outside": v.outside} for v in self.vars],
                 "tags": sorted(self.tags), "group": self.group}
 
     @staticmethod
     def from_description(d):
         c = Case(d["lambda"], [Var(v["name"], v["scope"], v["src"], v["after"],
                                    tuple(v["helper"]) if v.get("helper") else None, v.get("byname", False),
-                                   v.get("lam_helper", False), v.get("mid")) for v in d["vars"]], d["depth"],
+                                   v.get("lam_helper", False), v.get("mid"), v.get("stays", False),
+                                   v.get("outside", False)) for v in d["vars"]], d["depth"],
                  d.get("tags", ()), d.get("prelude", ()), d.get("ns_attr"), d.get("group", ""),
                  d.get("passed", "inline"), d.get("twice", False))
         return c
@@ -158,7 +164,7 @@ class Case:
         return ["%s = %s" % (name, self.lam)]
 
     def source(self) -> str:
-        L = ["# generated by harness/props/capture_common.py", "import math, enum, dataclasses, collections, types",
+        L = ["# generated by harness/props/capture_common.py", "import math, enum, dataclasses, collections, types, functools",
              "_H = None", "def Select(f):", "    return _H.record(f)", ""]
         if self.ns_attr is not None:
             L.append("_object_cpp_as_py_namespace = %r" % self.ns_attr)
@@ -406,6 +412,13 @@ def capval_sx(v: Var, val: Any, case=None, rec=None, mod=None, expanding=()) -> 
         return "(V %s)" % bridge.const_sx(val)
     if not callable(val):
         return "(V %s)" % bridge.const_sx(val)
+    if v.outside:
+        raise OutsideDomain()
+    # decided on the live object, as _rewrite_captured_vars.visit_Name.safe_parse_wrapper does (F34, F35): a bound method
+    # and a callable that has __wrapped__ are never turned into a lambda
+    import inspect
+    if inspect.ismethod(val) or hasattr(val, "__wrapped__"):
+        return "(F -)"
     if v.helper is not None:
         if any(val is f for f in expanding):
             return "(F -)"                      # FC5's recursion guard: a helper being expanded stays by name
@@ -469,7 +482,7 @@ def build_cenv(lam: ast.AST, fobj, case, rec, mod, scope: str, expanding=()) -> 
             gl.append("(%s %s)" % (bridge.hx(v.name), capval_sx(v, rec.globals_before[v.name], case, rec, mod, expanding)))
             objs.append(rec.globals_before[v.name])
     # modules imported by the generated file are module globals too
-    for n in ("math", "enum", "dataclasses", "collections", "types"):
+    for n in ("math", "enum", "dataclasses", "collections", "types", "functools"):
         if n in names and n not in {v.name for v in case.vars}:
             gl.append("(%s (V %s))" % (bridge.hx(n), bridge.const_sx(sys.modules[n])))
             objs.append(sys.modules[n])
@@ -771,7 +784,7 @@ def check_shot(ctx, prop: str, case: Case, rec, data, pending: list, extra_oracl
         ctx.count("model", "input-construction-failed:" + rec.mi_error)
         return
     if mi is None:
-        ctx.count("model", "outside-domain(undecodable lambda)")
+        ctx.count("model", "outside-domain(snapshot not part of the case description, or undecodable lambda)")
         return
     ctx.count("model_input", "plain lambdas only" if plain_tree(ast.parse(case.lam, mode="eval").body) and "(Other " not in mi[0]
               else "default values / other parameter kinds (lam_view)")
@@ -869,5 +882,10 @@ def value_vars(name: str, scope: str) -> List[Tuple[str, Var]]:
     out.append(("builtin-fn", Var(name, scope, "%s = abs" % name, byname=True)))
     out.append(("multi-stmt-fn", Var(name, scope, "def %s(q):\n    t = q\n    return t" % name, byname=True)))
     out.append(("lambda-helper", Var(name, scope, "%s = lambda q: q * 2" % name, lam_helper=True)))
+    # F34 / F35: callables with a single-return source that must stay calls by name
+    out.append(("bound-method", Var(name, scope, "class _M_%s:\n    def __init__(self, s):\n        self.s = s\n    def meth(self, q):\n        return q * self.s\n%s = _M_%s(3).meth" % (name, name, name),
+                                    helper=(["self", "q"], "q * self.s"), byname=True, stays=True)))
+    out.append(("wraps-decorated", Var(name, scope, "def _d_%s(f):\n    @functools.wraps(f)\n    def inner(q):\n        return f(q) + 100\n    return inner\n@_d_%s\ndef %s(q):\n    return q + 1" % (name, name, name),
+                                       helper=(["q"], "q + 1"), byname=True, stays=True)))
     out.append(("callable-object", Var(name, scope, "class _C_%s:\n    def __call__(self, q):\n        return q\n%s = _C_%s()" % (name, name, name), byname=True)))
     return out
